@@ -654,8 +654,15 @@ func (r *rwRT) ruleComments() {
 				}
 				sorted++
 				// the list that is sorted is the one that is installed — unless what is installed is a single
-				// collected list (in traversal order, which is source order), not a concatenation
-				if !sameAV(unwrap(e.Args[0]), unwrap(v)) {
+				// collected list (in traversal order, which is source order), not a concatenation. Several sorts
+				// (each part sorted, then a hand-written merge) are not judged: the merge's order is not decided here.
+				nSorts := 0
+				for _, e2 := range o.St.Events[:lastStore] {
+					if e2.Kind == "call" && e2.Fn != nil && fnPkgPath(e2.Fn) == "sort" && len(e2.Args) == 2 {
+						nSorts++
+					}
+				}
+				if nSorts == 1 && !sameAV(unwrap(e.Args[0]), unwrap(v)) {
 					spreads, elems := 0, 0
 					if sv, ok := unwrap(v).(SliceV); ok {
 						elems = len(sv.Elems)
